@@ -11,21 +11,22 @@
     escan <h|s|z> <cursor> <count> <pat|~> <novalues 0|1> -> <next> <items> <fast 0|1>
     glob <pattern> <text>                  -> <code 0|1> <spec 0|1|x>
     cmd <name|arg|arg...>                  -> err | <next> <items> [<fast>]
+    cfg <default> <cap> <factor>           -> ok          (Lean side only: the constants of `Gen.scanCfg`,
+                                                          sent by the check so that the driver builds even
+                                                          when the translator no longer recognises the source)
   The impl side prints neither the `fast` flag nor the `spec` verdict.
 -/
 import FerrousSpec.Drv.Util
 import FerrousSpec.Model.Scan
-import FerrousSpec.Gen.ScanConsts
 namespace Ferrous.Drv.Scan
 open Ferrous Ferrous.Drv Ferrous.Scan
 
 structure St where
+  g : Cfg := ⟨10, 1000, 10⟩
   db : Db := []
   h : List (Bytes × Bytes) := []
   s : List Bytes := []
   z : List (Bytes × Int) := []
-
-def g : Cfg := Gen.scanCfg
 
 def typeCode (s : String) : Option Nat :=
   match s with
@@ -51,16 +52,16 @@ def upsert {β : Type} (k : Bytes) (v : β) (l : List (Bytes × β)) : List (Byt
 def escan (st : St) (kind : String) (cur cnt : Nat) (pat : Option Bytes) (nov : Bool) : Option String :=
   match kind with
   | "h" =>
-    let r := Code.hscan g st.h cur cnt pat nov
-    some s!"{r.1} {hexList r.2} {flag (Code.fastPath g st.h.length cur cnt pat)}"
+    let r := Code.hscan st.g st.h cur cnt pat nov
+    some s!"{r.1} {hexList r.2} {flag (Code.fastPath st.g st.h.length cur cnt pat)}"
   | "s" =>
     if nov then none else
-    let r := Code.sscan g st.s cur cnt pat
-    some s!"{r.1} {hexList r.2} {flag (Code.fastPath g st.s.length cur cnt pat)}"
+    let r := Code.sscan st.g st.s cur cnt pat
+    some s!"{r.1} {hexList r.2} {flag (Code.fastPath st.g st.s.length cur cnt pat)}"
   | "z" =>
     if nov then none else
-    let r := Code.zscan g st.z cur cnt pat
-    some s!"{r.1} {showZ r.2} {flag (Code.fastPath g st.z.length cur cnt pat)}"
+    let r := Code.zscan st.g st.z cur cnt pat
+    some s!"{r.1} {showZ r.2} {flag (Code.fastPath st.g st.z.length cur cnt pat)}"
   | _ => none
 
 def collSize (st : St) (name : Bytes) : Option (String × Nat) :=
@@ -80,9 +81,9 @@ def cmdColl (st : St) (kind : String) (args : List Bytes) : String :=
         if n = 0 then "0 . 1"                                  -- key does not exist
         else if k != kind then "err"                           -- WRONGTYPE
         else if kind == "z" then
-          let r := Code.zscan g st.z c o.count o.pat
+          let r := Code.zscan st.g st.z c o.count o.pat
           let flat := r.2.flatMap fun (m, sc) => [m, intDigits sc]
-          s!"{r.1} {hexList flat} {flag (Code.fastPath g st.z.length c o.count o.pat)}"
+          s!"{r.1} {hexList flat} {flag (Code.fastPath st.g st.z.length c o.count o.pat)}"
         else (escan st kind c o.count o.pat o.noValues).getD "bad-op"
       | none => "0 . 1"                                        -- key does not exist
     | _, _ => "err"
@@ -90,7 +91,11 @@ def cmdColl (st : St) (kind : String) (args : List Bytes) : String :=
 
 def step (st : St) (ws : List String) : St × String :=
   match ws with
-  | ["reset"] => ({}, "ok")
+  | ["reset"] => ({ g := st.g }, "ok")
+  | ["cfg", d, c, f] =>
+    match d.toNat?, c.toNat?, f.toNat? with
+    | some d, some c, some f => ({ st with g := ⟨d, c, f⟩ }, "ok")
+    | _, _, _ => (st, "bad-op")
   | ["add", ty, k] =>
     match typeCode ty, ofHex k with
     | some t, some key => ({ st with db := upsert key t st.db }, "ok")
@@ -104,7 +109,7 @@ def step (st : St) (ws : List String) : St × String :=
   | ["scan", cur, cnt, pat, ty] =>
     match u64? cur, u64? cnt, optHex pat, optHex ty with
     | some c, some n, some p, some t =>
-      let r := Code.scan g st.db c n p t
+      let r := Code.scan st.g st.db c n p t
       (st, s!"{r.1} {hexList r.2}")
     | _, _, _, _ => (st, "bad-op")
   | ["eadd", kind, m, v] =>
@@ -148,7 +153,7 @@ def step (st : St) (ws : List String) : St × String :=
     | some (name :: args) =>
       let u := name.map upperAscii
       if u = [83, 67, 65, 78] then
-        match Code.cmdScan g st.db args with
+        match Code.cmdScan st.g st.db args with
         | some r => (st, s!"{r.1} {hexList r.2}")
         | none => (st, "err")
       else if u = [72, 83, 67, 65, 78] then (st, cmdColl st "h" args)
